@@ -8,5 +8,5 @@ Definition table_H (tbl : list (str * str)) (b : str) : str :=
 Definition resolve_frozen_tbl (tbl : list (str * str)) := resolve_frozen (table_H tbl).
 
 Extraction "../ocaml/gen/pathm.ml" extract_anchor mk_fs validate_write validate_validate validate_fileops resolve abs_tail
-  p_exists p_is_symlink p_is_dir late_recheck name_ok schema_files schema_candidate parse_frozen frozen_file resolve_frozen_tbl
+  p_exists p_is_symlink p_lstat_link p_is_dir late_recheck_write late_recheck_fileops name_ok schema_files schema_candidate parse_frozen frozen_file resolve_frozen_tbl
   validate_uri realpath rp_fuel has_nul pparse pname suffix suffixes compound_suffix ext_ok trace_write.
